@@ -3112,6 +3112,34 @@ fn oracle_c06(fields: &[&str]) -> String {
                 if !((e.meridian_distance_to_latitude(d) - x).abs() < 1e-9) {
                     return format!("oracle FAIL meridian distance {d} of latitude {x} on {} comes back as {}", fields[1], e.meridian_distance_to_latitude(d));
                 }
+                // the meridian distance is odd, zero on the equator, increasing, and inverted on the southern hemisphere too
+                let y = p[1].min(1.5);
+                let dm = e.meridian_latitude_to_distance(-x);
+                if !((dm + d).abs() <= 1e-9 * d.abs().max(1.0)) {
+                    return format!("oracle FAIL meridian distance is not odd on {}: {d} at {x} but {dm} at {}", fields[1], -x);
+                }
+                if !((e.meridian_distance_to_latitude(dm) + x).abs() < 1e-9) {
+                    return format!("oracle FAIL meridian distance {dm} of latitude {} on {} comes back as {}", -x, fields[1], e.meridian_distance_to_latitude(dm));
+                }
+                if (y - x).abs() > 1e-9 && !((e.meridian_latitude_to_distance(y) - d) * (y - x) > 0.0) {
+                    return format!("oracle FAIL meridian distance is not increasing between {x} and {y} on {}", fields[1]);
+                }
+            }
+            // ... at the equator and at both poles
+            {
+                let hp = std::f64::consts::FRAC_PI_2;
+                let (dn, ds, d0) = (e.meridian_latitude_to_distance(hp), e.meridian_latitude_to_distance(-hp), e.meridian_latitude_to_distance(0.0));
+                if !(d0 == 0.0) || !(dn > 0.0) || !((dn + ds).abs() <= 1e-9 * dn) {
+                    return format!("oracle FAIL meridian distance on {}: {d0} at the equator, {dn} at the North Pole, {ds} at the South Pole", fields[1]);
+                }
+                let near = e.meridian_latitude_to_distance(-hp + 1e-7);
+                if !(near > ds && near - ds < 1.0 * a / 6.0e6) {
+                    return format!("oracle FAIL meridian distance on {} jumps at the South Pole: {ds} at the pole, {near} at 1e-7 rad from it", fields[1]);
+                }
+                let nearn = e.meridian_latitude_to_distance(hp - 1e-7);
+                if !(nearn < dn && dn - nearn < 1.0 * a / 6.0e6) {
+                    return format!("oracle FAIL meridian distance on {} jumps at the North Pole: {dn} at the pole, {nearn} at 1e-7 rad from it", fields[1]);
+                }
             }
         }
         "rectpole" => {
